@@ -40,6 +40,8 @@ def run(ctx):
     check_ws_agreement(ctx)
     check_strip_semicolon(ctx)
     RL.check_singleton_lock(ctx, 'R4.6')
+    ctx.rule('R4.7', 'per-statement state of the splitter is completely reset (a piece re-split alone sees the same state)', floor=7)
+    RS.check_reset_completeness(ctx, 'R4.7')
 
 
 def check_split_entry(ctx):
@@ -132,6 +134,7 @@ def check_ws_agreement(ctx):
                 # this rule certainly matches any char of its first set if its first atom alone suffices (width-1 rule)
                 if r.tree.getwidth()[0] == 1:
                     remaining &= ~fs
+    check_ws_rules_only_ws(ctx, 'R4.3b')
     ctx.ob('R4.3b', 'ws-covered', 'sqlparse/keywords.py', 'every whitespace character is claimed by a width-1 Whitespace/Newline rule',
            remaining == 0, f'whitespace characters not lexed as whitespace: {[hex(ord(c)) for c in rx.chars_of(remaining, 8)]}')
 
@@ -156,3 +159,24 @@ def check_strip_semicolon(ctx):
         ctx.ob('R4.5', f'pop:{src(pnode)}', f'{f.mod.relpath}:{pnode.lineno}',
                'the filter pops the last token only while it is whitespace or ";"', ok and alt_ok,
                f'`{src(pnode)}` under guards {[x for x in facts if x[0] != "|"]}: other tokens can be removed from the statement')
+
+
+def check_ws_rules_only_ws(ctx, rid):
+    """every rule typed inside T.Whitespace matches only characters for which str.isspace() is True
+    (the splitter discards a final whitespace-only statement and split() strips the pieces)"""
+    from ..fold import TT
+    T = get_tables(ctx)
+    WS = TT(('Text', 'Whitespace'))
+    isspace = 0
+    for i, ch in enumerate(rx.DOM):
+        if ch.isspace():
+            isspace |= 1 << i
+    for r in T.lex:
+        if isinstance(r.action, TT) and WS.contains(r.action):
+            sets = rx.Prog(r.pattern, rx.LEXFLAGS).charsets()
+            extra = 0
+            for s_ in sets:
+                extra |= s_ & ~isspace
+            ctx.ob(rid, f'ws-only:{r.pattern}', f'{T.kwmod.relpath}:{r.line}', f'whitespace rule #{r.index} {r.pattern!r} matches only whitespace characters',
+                   extra == 0, f'it also matches {[hex(ord(c)) for c in rx.chars_of(extra, 6)]}: such characters are typed Whitespace, so a trailing run of '
+                   'them is discarded with the final statement / stripped from a piece although they are not whitespace')
